@@ -159,7 +159,7 @@ fn replay_in_child(path: &str) -> Result<Vec<String>, String> {
         .stderr(Stdio::null())
         .spawn()
         .map_err(|e| e.to_string())?;
-    let deadline = std::time::Instant::now() + std::time::Duration::from_secs(120);
+    let deadline = std::time::Instant::now() + std::time::Duration::from_secs(std::env::var("A10MC_REPLAY_S").ok().and_then(|s| s.parse().ok()).unwrap_or(60));
     let status = loop {
         match child.try_wait() {
             Ok(Some(st)) => break Some(st),
@@ -266,7 +266,13 @@ fn check(prop: &str, tier: &str) -> i32 {
     let mut candidates: Vec<Candidate> = Vec::new();
     let mut capped = false;
     let mut machinery: Vec<String> = Vec::new();
+    let mut stalled_harnesses = 0usize;
     for (hi, h) in hs.iter().enumerate() {
+        if stalled_harnesses >= 2 {
+            // Two harnesses already hung: the remaining ones would each wait for the stall limit too.
+            println!("  harness {} and the following ones not run: earlier harnesses hung", h.name);
+            break;
+        }
         let th = std::time::Instant::now();
         let mut children = Vec::new();
         for s in 0..n {
@@ -290,21 +296,74 @@ fn check(prop: &str, tier: &str) -> i32 {
         let mut per_depth: Vec<u64> = Vec::new();
         // Watchdog: a worker that exceeds the deadline is killed (machinery failure).
         let deadline = std::time::Instant::now() + std::time::Duration::from_secs(if tier == "quick" { 240 } else { 4 * 3600 });
-        for (out, mut child) in children {
-            let mut killed = false;
-            loop {
-                match child.try_wait() {
-                    Ok(Some(_)) => break,
-                    Ok(None) if std::time::Instant::now() > deadline => {
-                        let _ = child.kill();
-                        killed = true;
-                        let crumb = breadcrumb::read(&format!("{out}.crumb"));
-                        machinery.push(format!("worker for harness {} exceeded the time limit and was killed (last history: {crumb:?})", h.name));
-                        break;
-                    }
-                    Ok(None) => std::thread::sleep(std::time::Duration::from_millis(5)),
-                    Err(_) => break,
+        // A worker whose breadcrumb (the history it is executing) does not change for `stall` seconds is
+        // stuck inside one execution: it is killed and that history becomes a hang candidate.
+        let stall = std::time::Duration::from_secs(std::env::var("A10MC_STALL_S").ok().and_then(|s| s.parse().ok()).unwrap_or(if tier == "quick" { 60 } else { 300 }));
+        let mut watch: Vec<(Vec<u8>, std::time::Instant, Option<&'static str>, bool)> = children.iter().map(|_| (Vec::new(), std::time::Instant::now(), None, false)).collect();
+        let mut last_scan = std::time::Instant::now();
+        loop {
+            let mut all_done = true;
+            let scan = last_scan.elapsed() >= std::time::Duration::from_millis(500);
+            if scan {
+                last_scan = std::time::Instant::now();
+            }
+            for (i, (out, child)) in children.iter_mut().enumerate() {
+                if watch[i].3 {
+                    continue;
                 }
+                match child.try_wait() {
+                    Ok(Some(_)) | Err(_) => watch[i].3 = true,
+                    Ok(None) => {
+                        all_done = false;
+                        if std::time::Instant::now() > deadline {
+                            let _ = child.kill();
+                            watch[i].2 = Some("deadline");
+                            watch[i].3 = true;
+                        } else if scan {
+                            let cur = std::fs::read(format!("{out}.crumb")).unwrap_or_default();
+                            if cur != watch[i].0 {
+                                watch[i].0 = cur;
+                                watch[i].1 = std::time::Instant::now();
+                            } else if watch[i].1.elapsed() > stall {
+                                let _ = child.kill();
+                                watch[i].2 = Some("stall");
+                                watch[i].3 = true;
+                            }
+                        }
+                    }
+                }
+            }
+            if all_done {
+                break;
+            }
+            std::thread::sleep(std::time::Duration::from_millis(10));
+        }
+        if watch.iter().any(|w| w.2 == Some("stall")) {
+            stalled_harnesses += 1;
+        }
+        for (i, (out, child)) in children.into_iter().enumerate() {
+            let killed = watch[i].2.is_some();
+            match watch[i].2 {
+                Some("deadline") => {
+                    let crumb = breadcrumb::read(&format!("{out}.crumb"));
+                    machinery.push(format!("worker for harness {} exceeded the time limit and was killed (last history: {crumb:?})", h.name));
+                }
+                Some(_) => {
+                    if let Some((_, choices)) = breadcrumb::read(&format!("{out}.crumb")) {
+                        candidates.push(Candidate {
+                            prop: prop.to_string(),
+                            sig: "hang/replay-timeout".to_string(),
+                            msg: format!("a worker made no progress for {} s inside this one history (an execution normally takes milliseconds): a10 hangs or spins", stall.as_secs()),
+                            harness: hi,
+                            harness_name: h.name.clone(),
+                            choices,
+                            history: Vec::new(),
+                        });
+                    } else {
+                        machinery.push(format!("worker for harness {} stalled without a readable breadcrumb", h.name));
+                    }
+                }
+                None => {}
             }
             let res = child.wait_with_output().expect("waiting for worker");
             if killed {
@@ -411,6 +470,8 @@ fn check(prop: &str, tier: &str) -> i32 {
     let mut exit = 0;
     let mut known_seen = Vec::new();
     let mut violations = 0;
+    let mut hang_confirmed = false;
+    let mut not_replayed: Vec<String> = Vec::new();
     for c in &candidates {
         let viol = report::Violation::new(&c.prop, &c.sig, &c.msg);
         if c.prop != prop {
@@ -422,10 +483,26 @@ fn check(prop: &str, tier: &str) -> i32 {
             known_seen.push(json!({"signature": c.sig, "harness": c.harness_name, "history": c.history}));
             continue;
         }
-        // Confirm by two replays in fresh processes.
+        // Confirm by two replays in fresh processes (a hang: the stall was the first observation, one
+        // replay is the second; only the first hang candidate is replayed, they take a full timeout each).
+        // The number of confirmations is bounded: once a few violations stand, the rest are only listed.
+        let max_confirm: usize = std::env::var("A10MC_MAX_CONFIRM").ok().and_then(|s| s.parse().ok()).unwrap_or(4);
+        if violations >= max_confirm || hang_confirmed {
+            // (After a confirmed hang every further replay is likely to take a full timeout as well.)
+            not_replayed.push(c.sig.clone());
+            continue;
+        }
         let path = replay_file(prop, tier, c);
+        let is_hang = c.sig == "hang/replay-timeout";
+        if is_hang && hang_confirmed {
+            println!("  (also stalled, not replayed: harness {} history {:?})", c.harness_name, c.choices);
+            continue;
+        }
         let r1 = replay_in_child(&path);
-        let r2 = replay_in_child(&path);
+        let r2 = if is_hang { r1.clone() } else { replay_in_child(&path) };
+        if is_hang && matches!(&r1, Ok(a) if a.contains(&c.sig)) {
+            hang_confirmed = true;
+        }
         match (r1, r2) {
             (Ok(a), Ok(b)) if a.contains(&c.sig) && b.contains(&c.sig) => {
                 println!("VIOLATION property={} replay={}", c.prop, path);
@@ -438,10 +515,29 @@ fn check(prop: &str, tier: &str) -> i32 {
                 violations += 1;
                 exit = 1;
             }
+            (Ok(a), Ok(b)) if a.iter().any(|x| x == "hang/replay-timeout") && b.iter().any(|x| x == "hang/replay-timeout") => {
+                // The history that produced the candidate does not terminate when replayed, twice: a hang.
+                if !hang_confirmed {
+                    hang_confirmed = true;
+                    println!("VIOLATION property={} replay={}", c.prop, path);
+                    println!("  signature: hang/replay-timeout (candidate was {})", c.sig);
+                    println!("  harness:   {}", c.harness_name);
+                    println!("  replaying this history does not terminate (two attempts); found as: {}", c.msg);
+                    violations += 1;
+                    exit = 1;
+                } else {
+                    not_replayed.push(format!("{} (replay hangs)", c.sig));
+                }
+            }
             (a, b) => {
                 machinery.push(format!("violation {} not reproduced deterministically ({a:?} / {b:?}); replay {path}", c.sig));
             }
         }
+    }
+    if !not_replayed.is_empty() {
+        not_replayed.sort();
+        not_replayed.dedup();
+        println!("  further candidate signatures, not replayed: {}", not_replayed.join(", "));
     }
     if !machinery.is_empty() {
         for m in &machinery {
